@@ -253,6 +253,9 @@ def _pipe(case, ctx):
     subpix = int(rng.choice([1, 2]))
     n_conf = int(rng.integers(1, 5))
     conf_methods = [["std_intensity", "ambiguity", "risk", "interval_bounds"][int(x)] for x in rng.integers(0, 4, n_conf)]
+    directed = case["i"] < 3  # directed constructor of the gating classes: ambiguity, then a regularised interval_bounds
+    if directed:
+        conf_methods = ["ambiguity", "interval_bounds"] + conf_methods[:1]
     kinds = ["matching_cost"]
     pos_conf = []
     if rng.random() < 0.3:
@@ -296,9 +299,10 @@ def _pipe(case, ctx):
         k = keys[pos]
         if cm == "ambiguity":
             amb_seen = k
-        elif cm == "interval_bounds" and amb_seen is not None and rng.random() < 0.7:
+        elif cm == "interval_bounds" and amb_seen is not None and (directed or rng.random() < 0.7):
             params[k].update({"regularization": True, "ambiguity_indicator": sfx_of[amb_seen].lstrip("."),
-                              "ambiguity_kernel_size": int(rng.choice([1, 3, 5])), "vertical_depth": int(rng.choice([0, 1, 2])),
+                              "ambiguity_kernel_size": [1, 3, 5][case["i"]] if directed else int(rng.choice([1, 3, 5])),
+                              "vertical_depth": int(rng.choice([0, 1, 2])),
                               "ambiguity_threshold": float(rng.choice([0.3, 0.6, 0.9]))})
             ctx.gate("regularised_interval_bounds_after_ambiguity")
             ctx.gate("regularisation_kernel_size_1", int(params[k]["ambiguity_kernel_size"] == 1))
